@@ -1,7 +1,7 @@
 """C17 - loading describes exactly what was written, without side effects."""
 from __future__ import annotations
 import copy, json, math, os, tempfile
-from ..common import CaseResult, Naming, stable_hash, gauss, rat, close, call, exc_sig, ensure_repo_import
+from ..common import CaseResult, Naming, N_SCHEMES, NODE_NAMES, ID_PREFIX, stable_hash, gauss, rat, close, call, exc_sig, ensure_repo_import
 from ..netbuild import project_network
 from ..circbuild import make_component, f as fl, phase_of
 from .c04 import same_elem
@@ -27,7 +27,7 @@ def required_tags(tier):
     return ['net:' + k for k in ['resistor', 'conductor', 'impedance', 'admittance', 'linear_current_source', 'current_source', 'real_current_source',
                                  'linear_voltage_source', 'voltage_source', 'real_voltage_source', 'short_circuit', 'open_circuit']] + \
            ['notation:ri', 'notation:pr', 'to_complex:degree', 'second_load', 'from_json', 'circ:impedance', 'circ:ac_voltage_source', 'circ:complex_current_source',
-            'doc:json', 'doc:yaml', 'doc:nested_list', 'doc:complex']
+            'doc:json', 'doc:yaml', 'doc:nested_list', 'doc:complex', 'written:cartesian', 'written:polar_rad', 'written:polar_deg']
 
 
 def written_py(wr):
@@ -47,8 +47,8 @@ def snapshot(x):
 
 def replay_net(case, ctx, r, tg):
     h = stable_hash(case['doc'])
-    scheme = h % 6
-    idn = Naming(scheme * 5)                    # plain node names ('0' must exist), adversarial ids
+    scheme = h % len(ID_PREFIX)
+    idn = Naming(scheme * len(NODE_NAMES))                    # plain node names ('0' must exist), adversarial ids
     doc = []
     for en in case['doc']:
         d = {'type': en['type'], 'id': idn.eid(en['id']), 'N1': str(en['n1']), 'N2': str(en['n2'])}
@@ -136,7 +136,7 @@ def replay_net(case, ctx, r, tg):
 def replay_comp(case, ctx, r, tg):
     c = case['comp']
     h = stable_hash(c)
-    naming = Naming(h % 30)
+    naming = Naming(h % N_SCHEMES)
     ids = {c['id']: naming.eid(c['id'])}
     want, e = call(make_component, c, naming, ids)
     if e is not None:
@@ -233,6 +233,65 @@ def replay_doc(case, ctx, r, tg):
                 os.unlink(path)
 
 
+def written_doc(n, notation):
+    """the document with every complex leaf written in one of the three notations of a description"""
+    import cmath
+    if 'i' in n:
+        return n['i']
+    if 's' in n:
+        return n['s']
+    if 'f' in n:
+        return float(rat(n['f']))
+    if 'c' in n:
+        z = gauss(n['c'])
+        if notation == 'cartesian':
+            return {'real': z.real, 'imag': z.imag}
+        if notation == 'polar_rad':
+            return {'abs': abs(z), 'phase': cmath.phase(z)}
+        return {'abs': abs(z), 'phase_deg': math.degrees(cmath.phase(z))}
+    if 'l' in n:
+        return [written_doc(x, notation) for x in n['l']]
+    return {k: written_doc(v, notation) for k, v in n['d'].items()}
+
+
+def replay_written(case, ctx, r, tg):
+    """loading an in-memory description whose complex values are written out (Cartesian / polar rad / polar deg): same numbers in every
+    notation, the description unchanged, a second load equal to the first; also through JSON text"""
+    import copy, json as _json
+    want = py_doc(case['expect'], set())
+    for notation in ('cartesian', 'polar_rad', 'polar_deg'):
+        doc = written_doc(case['ndoc'], notation)
+        snap = snapshot(doc)
+        tg.add('written:' + notation)
+        for k in (1, 2):
+            got, e = call(dump_load.undictify_all_complex_values, doc)
+            r.observations += 1
+            if e is not None or not same_doc_tol(got, want):
+                r.mismatches.append({'what': f'undictify_all_complex_values(description in {notation} notation), load {k}', 'got': repr(e or got)[:400], 'want': repr(want)[:400],
+                                     'signature': f'written:{notation}:value', 'detail': snap[:300]})
+                break
+            if snapshot(doc) != snap:
+                r.mismatches.append({'what': f'undictify_all_complex_values: the description ({notation} notation) after load {k}', 'got': snapshot(doc)[:400], 'want': snap[:400],
+                                     'signature': f'mutated:undictify_all_complex_values:{notation}', 'detail': ''})
+                break
+        text = _json.dumps(written_doc(case['ndoc'], notation))
+        got, e = call(dump_load.deserialize, text, 'json')
+        r.observations += 1
+        if e is not None or not same_doc_tol(got, want):
+            r.mismatches.append({'what': f'deserialize(JSON text in {notation} notation)', 'got': repr(e or got)[:400], 'want': repr(want)[:400], 'signature': f'written_text:{notation}:value', 'detail': text[:300]})
+
+
+def same_doc_tol(a, b):
+    """same_doc with the tolerance a polar notation needs (abs and phase are binary64 roundings)"""
+    if isinstance(b, complex):
+        return isinstance(a, complex) and close(a, b, abs(b), rtol=1e-12, atol=1e-300)
+    if isinstance(b, dict):
+        return isinstance(a, dict) and a.keys() == b.keys() and all(same_doc_tol(a[k], b[k]) for k in b)
+    if isinstance(b, list):
+        return isinstance(a, list) and len(a) == len(b) and all(same_doc_tol(x, y) for x, y in zip(a, b))
+    return same_doc(a, b)
+
+
 def replay(case, ctx):
     r = CaseResult(case_id=f'{stable_hash(case):x}')
     tg = set()
@@ -242,5 +301,6 @@ def replay(case, ctx):
         replay_comp(case, ctx, r, tg)
     else:
         replay_doc(case, ctx, r, tg)
+        replay_written(case, ctx, r, tg)
     r.tags = sorted(tg)
     return r
